@@ -750,6 +750,9 @@ func (x *Exec) attachAxioms(o *Obligation) {
 			if strings.HasPrefix(u, "rswide=") {
 				o.Levels = 2
 			}
+			if strings.HasPrefix(u, "timeout=") {
+				fmt.Sscanf(u[len("timeout="):], "%d", &o.TimeoutS)
+			}
 		}
 	}
 	o.ExtraFn = func(rel map[string]bool, level int) []string {
